@@ -426,6 +426,7 @@ class Lowerer:
         self.glob_names = {}
         self.glob_order = []
         self.cuts = set()        # C names not to emit bodies for
+        self.cut_qual = ()       # qualified-name prefixes not to emit bodies for (object code behind a contract)
         self.specs = {}          # cname -> spec dict (contracts)
         self.local_alias = {}
         self.cur = None          # current function context
@@ -726,6 +727,10 @@ class Lowerer:
             self.fn_queue.append(m)
             self.fn_decl_node = getattr(self, 'fn_decl_node', {})
             self.fn_decl_node[m] = d
+        rn = getattr(self, 'call_rename', None)
+        if rn and isinstance(self.cur, dict) and self.cur.get('cname') in rn:
+            # bounded counterexample search only: calls from this function to a recursive callee go to a contract stub
+            return rn[self.cur['cname']].get(cname, cname)
         return cname
 
     def lower_all(self):
@@ -753,6 +758,8 @@ class Lowerer:
             if c.get('kind') == 'CompoundStmt':
                 body = c
         spec = self.specs.get(cname, {})
+        if body is not None and cname not in self.cuts and any(info['qualname'].startswith(q) for q in self.cut_qual):
+            self.cuts.add(cname)
         if cname in self.cuts or body is None:
             if body is None and cname not in self.cuts and not spec.get('extern_ok') and not info['qualname'].startswith('QV::'):
                 if n.get('explicitlyDefaulted') or n.get('isImplicit'):
@@ -829,6 +836,11 @@ class Lowerer:
                     if e.get('kind') == 'CXXDefaultInitExpr':
                         # implicit use of the in-class initialiser: take the expression from the field declaration
                         fd = [f for f in cls.get('inner', []) if f.get('kind') == 'FieldDecl' and f.get('name') == fld['name']]
+                        if not fd:
+                            # member of an anonymous union/struct of the class
+                            for sub in cls.get('inner', []):
+                                if sub.get('kind') == 'CXXRecordDecl' and not sub.get('name'):
+                                    fd += [f for f in sub.get('inner', []) if f.get('kind') == 'FieldDecl' and f.get('name') == fld['name']]
                         if not fd or not fd[0].get('inner'):
                             raise LowerError('default member initialiser of %s not found' % fld['name'])
                         e = fd[0]['inner'][-1]
@@ -938,6 +950,19 @@ class Lowerer:
         rec = t.rec
         parts = []
         is_union = rec.get('tagUsed') == 'union'
+        for i, b in enumerate(rec.get('bases') or []):
+            # base sub-objects: a defaulted/implicit default constructor applies the base's own initialisers,
+            # a user-provided one is called
+            bt = self.ctype(b['type'])
+            baddr = '&(%s)->%s' % (addr, 'qx_base%d' % i if i else 'qx_base')
+            dctor = None
+            for c in (bt.rec or {}).get('inner', []):
+                if c.get('kind') == 'CXXConstructorDecl' and not [p for p in c.get('inner', []) if p.get('kind') == 'ParmVarDecl']:
+                    dctor = self.ast.fn_def.get(c.get('mangledName')) or c
+            if dctor is None or dctor.get('isImplicit') or dctor.get('explicitlyDefaulted'):
+                parts.append(self.default_init(baddr, bt) + ';')
+            else:
+                parts.append('%s(%s);' % (self.request_fn(dctor), baddr))
         for f in rec.get('inner', []):
             if f.get('kind') == 'FieldDecl' and f.get('name') and f.get('hasInClassInitializer'):
                 e = f['inner'][-1]
@@ -1425,8 +1450,12 @@ class Lowerer:
         return self.expr(a)
 
     def new_tmp(self):
+        # numbered per function, so that a loop contract can name a hoisted temporary whatever else is lowered with it
+        if isinstance(self.cur, dict) and self.cur.get('cname'):
+            self.cur['tmp_n'] = self.cur.get('tmp_n', 0) + 1
+            return 'qx_tmp%d' % self.cur['tmp_n']
         self.tmp_counter += 1
-        return 'qx_tmp%d' % self.tmp_counter
+        return 'qx_gtmp%d' % self.tmp_counter
 
     def hoisted_tmp(self, t):
         """declare a function-scope temporary of type t; returns its name"""
@@ -1689,7 +1718,15 @@ class Lowerer:
                 txt = self.static_init(t, init)
             finally:
                 self.cur = saved
-            self.glob_done[m] = 'static %s = %s;' % (t.decl(name), txt)
+            se = init
+            while se.get('kind') in ('ImplicitCastExpr', 'ParenExpr', 'ConstantExpr', 'ExprWithCleanups') and se.get('inner'):
+                se = se['inner'][-1]
+            if se.get('kind') == 'StringLiteral' and txt.startswith('"') and len(t.derivs) == 1 and t.is_ptr() and 'const' in (d['type'].get('qualType') or '').split('*')[-1]:
+                # a constant pointer to a string literal: emitted as the array itself, so that other constants may
+                # be initialised from it (a C constant expression) and the object has exactly the literal's extent
+                self.glob_done[m] = 'static %s %s[] = %s;' % (('const ' if t.base_const else '') + t.base, name, txt)
+            else:
+                self.glob_done[m] = 'static %s = %s;' % (t.decl(name), txt)
             self.glob_order.append(m)
         return name
 
@@ -1973,6 +2010,7 @@ class Lowerer:
         parts += self.out_types
         for m in self.glob_order:
             parts.append(self.glob_done[m])
+        parts.append('/* ---- end types ---- */')
         for m in self.fn_done:
             parts.append(self.fn_proto.get(m, '') + ';') if m in self.fn_proto and '__CPROVER' not in self.fn_done[m][:0] else None
         parts += self.extra_fns
